@@ -8,14 +8,13 @@ Open Scope Z_scope.
 
 (* D1  for EVERY subset of the 13 decorators (given as a membership predicate), for models and for
        classes: the derive list the real compiler emits (row of the regenerated table) consists of
-       vocabulary names, contains every requested derive (Validate aside), is closed under Rust's
-       supertrait requirements unless the request is in the known class {PartialOrd without
-       PartialEq/Eq/Ord}, and names only derivable macros unless Display was requested *)
+       vocabulary names, is closed under Rust's supertrait requirements, contains every requested
+       derive (Validate aside), and names only derivable macros unless Display was requested *)
 Theorem C20_derive_closed : forall (f : derive -> bool) (tbl : list (list Z)),
   tbl = gen_table_model \/ tbl = gen_table_class ->
   let req := filter f decorators in
   exists row e, In (req, row) (combine (powerset decorators) tbl) /\ row_derives row = Some e /\
-    (~ Known_C20_partialord_without_partialeq req -> closed e = true) /\
+    closed e = true /\
     sufficient req e = true /\
     (~ Known_C20_derive_display req -> resolvable e = true).
 Proof.
@@ -23,16 +22,54 @@ Proof.
 Qed.
 Print Assumptions C20_derive_closed.
 
+(* D1r regression witness (repaired finding derive-partialord): the class that used to fail is not
+       empty and is closed now — on the regenerated table, for `@derive(PartialOrd)` alone *)
+Theorem C20_derive_partialord_regression :
+  partialord_alone [DPartialOrd] = true /\
+  exists row e, In ([DPartialOrd], row) (combine (powerset decorators) gen_table_model) /\
+    row_derives row = Some e /\ has e DPartialEq = true /\ closed e = true.
+Proof.
+  split; [reflexivity|].
+  assert (H : existsb (fun p => partialord_alone (fst p) && Nat.eqb (length (fst p)) 1 &&
+                match row_derives (snd p) with Some e => has e DPartialEq && closed e | None => false end)
+              (combine (powerset decorators) gen_table_model) = true) by (vm_compute; reflexivity).
+  apply existsb_exists in H as [[req row] [Hin H]]. cbn [fst snd] in H.
+  apply andb_prop in H as [H H2]. apply andb_prop in H as [Hk Hlen].
+  destruct (row_derives row) as [e|] eqn:E; [|discriminate]. apply andb_prop in H2 as [Hpe Hcl].
+  assert (Hreq : req = [DPartialOrd]).
+  { apply Nat.eqb_eq in Hlen. destruct req as [|d [|d2 req]]; try discriminate.
+    destruct d; vm_compute in Hk; try discriminate. reflexivity. }
+  subst req. exists row, e. repeat split; assumption.
+Qed.
+Print Assumptions C20_derive_partialord_regression.
+
 (* D2  the hand model of extract_derives + lower_model/lower_class + emit_struct, for ALL derive
-       lists (any order, any multiplicity): closed outside the known class, sufficient, resolvable *)
+       lists (any order, any multiplicity): closed, sufficient, resolvable unless Display is requested *)
 Theorem C20_derive_model_closed : forall l : list derive,
-  (known_partialordb l = false -> closed (emitted l) = true) /\
+  closed (emitted l) = true /\
   sufficient l (emitted l) = true /\
   (has l DDisplay = false -> resolvable (emitted l) = true).
 Proof.
   intros l. split; [exact (emitted_closed l)|]. split; [exact (emitted_sufficient l) | exact (emitted_resolvable l)].
 Qed.
 Print Assumptions C20_derive_model_closed.
+
+(* D4  to_json / from_json: for every decorator subset, for a method-less model AND a method-less
+       class, the inherent to_json is emitted iff Serialize is among the emitted derives and from_json
+       iff Deserialize is (flags regenerated from the real emitter); the last conjunct is the regression
+       witness of the repaired finding class-json-methods *)
+Theorem C20_json_methods_emitted :
+  (forall row code, In (row, code) (combine gen_table_model gen_jm_model) ->
+     exists e, row_derives row = Some e /\ code = json_methods_code e) /\
+  (forall row code, In (row, code) (combine gen_table_class gen_jm_class) ->
+     exists e, row_derives row = Some e /\ code = json_methods_code e) /\
+  length gen_jm_model = length gen_table_model /\ length gen_jm_class = length gen_table_class /\
+  existsb (fun c => c =? 3) gen_jm_class = true.
+Proof.
+  split; [exact (jm_ok_rows _ _ jm_model_ok)|]. split; [exact (jm_ok_rows _ _ jm_class_ok)|].
+  split; [vm_compute; reflexivity|]. split; [vm_compute; reflexivity|exact jm_class_witness].
+Qed.
+Print Assumptions C20_json_methods_emitted.
 
 (* D3  tie: on every decorator subset, for both kinds, the regenerated row and the hand model
        [emitted] contain the same derive names *)
@@ -154,10 +191,10 @@ Proof.
 Qed.
 
 Example C20_nonvacuous :
-  ~ Known_C20_partialord_without_partialeq (filter (fun d => derive_eqb d DOrd || derive_eqb d DHash) decorators) /\
+  ~ Known_C20_derive_display (filter (fun d => derive_eqb d DOrd || derive_eqb d DHash) decorators) /\
   emitted [DOrd; DHash] = [DOrd; DHash; DPartialOrd; DEq; DPartialEq; DDebug; DClone; DFieldInfo; DIncanClass] /\
   closed (emitted [DOrd; DHash]) = true.
 Proof.
   split; [|split; vm_compute; reflexivity].
-  intros [H _]. vm_compute in H. discriminate.
+  intros H. vm_compute in H. discriminate.
 Qed.
